@@ -12,6 +12,15 @@ package c09
 //     without a record, or with a record that names no country, is in no country;
 //   * each invert flag negates its own criterion;
 //   * "toMatchedDomainExpected…" *requires* (AND) the matched domain to resolve into the prefixes;
+//   * invertToDomains on a route that also states such a requirement is documented in two ways and the
+//     evaluator implements both (world.readingB): (a) "Invert destination domain matching logic" - the
+//     flag negates the domain criterion as a whole, i.e. NOT(listed AND resolves as expected); (b) "Match
+//     requests to all domains except those in ToDomains or ToDomainSets" + "Require the matched domain
+//     target to resolve to …" - the flag negates the list membership, the requirement still holds:
+//     (NOT listed) AND resolves as expected. The runner accepts the union and demands that one reading
+//     accounts for all requests of a configuration;
+//   * port 0 (which can be requested but never listed) is in no port set: a plain port criterion is not
+//     met by it, an inverted one ("all ports except those in …") is;
 //   * IP criteria on a domain target use the address the resolver returns (the route's named
 //     resolver, else all resolvers by order, skipping those that fail with dns.ErrLookup), unless
 //     disableNameResolutionForIPRules;
@@ -449,7 +458,7 @@ func (w *world) evalRoute(rm *routeModel, q *request) (uint8, evalInfo) {
 	if hasDomain || hasPrefix || hasToGeo {
 		members := 0
 		group := vF
-		others := vF // the prefix and country members of the group
+		others := vF     // the prefix and country members of the group
 		var domExp uint8 // verdict of the "resolves as expected" requirement for a domain target
 		var domExpSet, domListed bool
 		if hasDomain {
